@@ -482,8 +482,12 @@ func (t *tOps) remove(fd storage.FileDesc) {
 		if t.evictRemoved && t.blockCache != nil {
 			t.blockCache.EvictNS(uint64(fd.Num))
 		}
-		// Try to reuse file num, useful for discarded transaction.
-		t.s.reuseFileNum(fd.Num)
+		// Try to reuse file num, useful for discarded transaction. The block
+		// cache is keyed by file number, so the number must not be given to
+		// a new table while blocks of the removed one may still be cached.
+		if t.evictRemoved || t.blockCache == nil {
+			t.s.reuseFileNum(fd.Num)
+		}
 	})
 }
 
